@@ -19,7 +19,6 @@ Witnesses of its negation (each replayed on the implementation and recorded as a
   `sticky_role_answers_offerers_own_role`  — setup clause once the DTLS transport exists (role input kept)
   `sections_with_differing_setup_get_one_role` — setup clause, sections offering different roles
   `partial_bundle_group_answered_in_full`  — BUNDLE clause: a section outside the offered group is bundled
-  `session_level_direction_is_not_read`    — direction clause, direction given at session level only
   (`offered_payload_type_rebound` — NOT a clause: an offered NUMBER bound to another codec; a counter)
 Since round 3 an answer section is built from the offered section AT THE SAME INDEX (`answerOrder` pairs each
 matched transceiver with that section), so every per-section theorem is about the section actually
@@ -38,6 +37,9 @@ answered, for every offer with or without mids:
   `PtsWithinOffer` (video / image / audio without a common codec) — what the code does NOT ensure.
   `RoleDerived` and `DirSynced` are hypotheses about the connection state `set_remote_description` left
   behind; they are discharged for a first offer in the C09 model only informally (different record types).
+`session_level_direction_is_not_read` is a witness about the PARSER (it does not negate `answer_valid_full`:
+`validAnswer` has no session-level direction clause); `sticky_role_answers_offerers_own_role` is about the
+model's role INPUT and is not replayed on the implementation.
 Theorems marked "(lemma)" in their doc comment are helpers, not obligations of the property.
 
 SDP text: see the block comment before `round_trip_partial` — the literal round-trip clause is FALSE for
@@ -170,7 +172,7 @@ theorem answer_mux_ok (c : Cfg) (t : TrxView) (o : Media) (role : Option Bool)
   exact decide_eq_false hne |>.symm ▸ (by simp)
 
 /-- **answer_bundle_ok** — a BUNDLE group is emitted only when the offer carried one (and never in
-LegacySip mode), and it lists exactly the mids of the answered sections. -/
+LegacySip mode). (Existence of the group only; which mids it lists: `answer_valid_partial`.) -/
 theorem answer_bundle_ok (c : Cfg) (ts : List TrxView) (nextMid : Nat) (role : Option Bool)
     (offer : Desc) (a : Answer) (g : Str)
     (h : answer c ts nextMid role (some offer) = .ok a) (hg : a.group = some g) :
